@@ -16,6 +16,7 @@ MOD = "mc.props.c01"
 POOL = [-(2**31), -300, -16, -1, 0, 1, 9, 10, 13, 65, 97, 255, 256, 2**31 - 1, 2**63]
 SMALL_POOL = [-300, -1, 0, 9, 10, 13, 65, 255, 2**31 - 1]
 CHAR_POOL = [9, 32, 34, 39, 44, 46, 58, 92, 122, 0xA0, 0x2003, 0x2025]  # characters that mean something to the range syntax or to string tokens, as quoted limits
+DEC_POOL_LONG = ["-100000000000000000.5", "-12345678901234567", "0.5", "0.125", "12345678901234567", "99999999999999999", "100000000000000000.25", "12345678901234567890123.4"]
 DEC_POOL = ["-9999999999999999999.999999999999", "-2.50", "-1", "-0.01", "0", "0.5", "1", "1.50", "99.999", "9999999999999999999.999999999999"]
 FAR = 2**70
 TINY = decimal.Decimal("1E-30")
@@ -309,6 +310,13 @@ def run(ctx):
     for count in (1, 2, 3):
         all_structures = structures(decimal_pool, count)
         bound_text["decimal items=%d" % count] = "%d structures, full product of separator x blanks x order x single-as-interval" % len(all_structures)
+        for group in engine.chunks(all_structures, 30):
+            items.append(("dec", None, group))
+    # limits of 17 and more digits next to limits with a different number of fractional digits (nothing may go through binary floating point)
+    long_pool = sorted(DEC_POOL_LONG, key=decimal.Decimal)
+    for count in (1, 2):
+        all_structures = structures(long_pool, count)
+        bound_text["decimal items=%d (many-digit limits)" % count] = "%d structures, full product of separator x blanks x order x single-as-interval" % len(all_structures)
         for group in engine.chunks(all_structures, 30):
             items.append(("dec", None, group))
     ctx.bound = bound_text
